@@ -58,7 +58,7 @@ Print Assumptions C06_rtu_loop_terminates.
    escape only ModbusIOException (decoder returned None) or what decoder.decode itself raised; it
    terminates, keeps the invariant and never grows the buffer.  (Excluded: ReadDeviceInformationResponse
    - refuted by C06_rtu_mei_refuted: struct.error then KeyError - and ReadFifoQueueResponse, whose
-   rule is not prefix-stable and unbounded: C11_rtu_fifo_refuted.) *)
+   rule is not prefix-stable and can ask for 64 KB: C11_rtu_fifo_extent_refuted.) *)
 Theorem C06_rtu_raises_only_io : forall cfg st chunk st' ds x,
   table_simple (cf_rules cfg) = true -> wfb (r_buf st ++ chunk) = true -> rtu_inv st ->
   rtu_recv cfg st chunk = (st', ds, x) ->
@@ -111,22 +111,31 @@ Theorem C06_rtu_mei_refuted :
 Proof. exact rtu_mei_partial_witness. Qed.
 Print Assumptions C06_rtu_mei_refuted.
 
-(* binary, strongest true statement: for every list of chunks (empty ones included) in which
-   every read either leaves at most one byte of the next frame buffered or completes exactly
-   that frame — no byte of a following frame in the same read — ([bopr]) and delimiter-free
-   frames, every frame is delivered, in order, and no call raises.  Everything outside this
-   region is refuted below (incomplete-frame reset, advanceFrame skipping a byte, escaping). *)
+(* binary, strongest true statement (after the /repo repair "advanceFrame drops exactly the frame"):
+   for every list of chunks (empty ones included) in which every read completes any number of
+   whole frames - none, one or several - and leaves at most one byte of the next frame buffered
+   ([bopr]), delimiter-free frames are all delivered, in order, and no call raises.  A read that
+   ends two or more bytes into a frame is still refuted below (incomplete-frame reset), as are
+   frames containing a delimiter and frames behind a frame for a unit not served. *)
 Theorem C06_binary_partial : forall cfg chunks b frames st,
   b_buf st = b ->
   Forall (fun f => valid_bframe cfg (fst f) (snd f)) frames ->
   bopr b frames chunks ->
-  bin_feed_dels cfg st chunks = (map (fun f => (snd f, Z.of_N (fst f))) frames, map (fun _ => FOk) chunks).
+  bin_feed_dels cfg st chunks = (bmsgs frames, map (fun _ => FOk) chunks).
 Proof. exact bin_chunked. Qed.
 Print Assumptions C06_binary_partial.
 
+(* one call drains every complete frame of the buffer and keeps at most one trailing byte *)
+Theorem C06_binary_drain : forall cfg fs fuel q h acc,
+  Forall (fun f => valid_bframe cfg (fst f) (snd f)) fs -> (length q <= 1)%nat -> (length fs < fuel)%nat ->
+  exists h', bin_loop fuel cfg {| b_buf := bstream fs ++ q; b_hdr := h |} acc
+             = ({| b_buf := q; b_hdr := h' |}, acc ++ bmsgs fs, FOk).
+Proof. exact bin_loop_drain. Qed.
+Print Assumptions C06_binary_drain.
+
 Example C06_binary_nonvacuous :
   let f := spec_adu_binary 1 [3; 0; 1; 0; 2] in
-  bopr [] [(1, [3; 0; 1; 0; 2]); (1, [3; 0; 1; 0; 2])] [[]; firstn 1 f; skipn 1 f; f; []].
+  bopr [] [(1, [3; 0; 1; 0; 2]); (1, [3; 0; 1; 0; 2]); (1, [3; 0; 1; 0; 2])] [[]; f ++ firstn 1 f; skipn 1 f ++ f; []].
 Proof. exact bopr_example. Qed.
 
 (* the while loop of the binary processIncomingPacket always terminates: the model's fuel
@@ -145,12 +154,24 @@ Theorem C06_binary_refuted :
 Proof. exact binary_incomplete_reset_witness. Qed.
 Print Assumptions C06_binary_refuted.
 
-(* binary: refuted — advanceFrame skips one byte too many; a second frame in the same read is
-   lost (finding F-C06-binary-advance-skips-byte) *)
-Theorem C06_binary_pipelined_refuted :
+(* formerly refuted, now FIXED in /repo (finding F-C06-binary-advance-skips-byte, status fixed):
+   several frames in one read are all delivered *)
+Theorem C06_binary_pipelined_fixed :
   let fa := spec_adu_binary 1 pdu_a in let fb := spec_adu_binary 1 pdu_b in
   no_delim (with_crc (1 :: pdu_a)) = true /\ no_delim (with_crc (1 :: pdu_b)) = true /\
   deliveries (bin_feed cfg_server bin_init [fa; fb]) = [(pdu_a, 1%Z); (pdu_b, 1%Z)] /\
-  deliveries (bin_feed cfg_server bin_init [fa ++ fb]) = [(pdu_a, 1%Z)].
-Proof. exact binary_advance_skip_witness. Qed.
-Print Assumptions C06_binary_pipelined_refuted.
+  deliveries (bin_feed cfg_server bin_init [fa ++ fb]) = [(pdu_a, 1%Z); (pdu_b, 1%Z)] /\
+  deliveries (bin_feed cfg_server bin_init [fa ++ fb ++ firstn 1 fa; skipn 1 fa]) = [(pdu_a, 1%Z); (pdu_b, 1%Z); (pdu_a, 1%Z)].
+Proof. exact binary_pipelined_fixed_witness. Qed.
+Print Assumptions C06_binary_pipelined_fixed.
+
+(* binary: refuted - a frame for a unit that is not served resets the buffer; the frames behind it
+   in the same read are lost (finding F-C06-binary-foreign-unit-resets-read; fixed for RTU only) *)
+Theorem C06_binary_foreign_unit_refuted :
+  let cfg := {| cf_dec := fun _ => DMsg; cf_rules := server_decoder; cf_units := [1%Z]; cf_single := false |} in
+  let fa := spec_adu_binary 1 pdu_a in let ff := spec_adu_binary 9 pdu_b in
+  no_delim (with_crc (9 :: pdu_b)) = true /\
+  deliveries (bin_feed cfg bin_init [fa ++ ff ++ fa]) = [(pdu_a, 1%Z)] /\
+  deliveries (bin_feed cfg bin_init [fa; ff; fa]) = [(pdu_a, 1%Z); (pdu_a, 1%Z)].
+Proof. exact binary_foreign_unit_witness. Qed.
+Print Assumptions C06_binary_foreign_unit_refuted.
